@@ -52,12 +52,32 @@ type Tr struct {
 	curClause    string
 	lemmaProof   bool
 	revealed     map[string]bool
+	curMref      string
+	visitCount   int
+	subTerms     map[string]string
+	frameTops    []string
+	allocParent  map[string]string        // heap version -> the version it extends by writes to freshly allocated objects only
+	opaqueAtoms  map[string][]opaqueInst  // opaque function symbol -> applications seen so far
+	stableUsed   map[string]bool
+	pendingOpaque *opaqueInst
 }
+
+type opaqueInst struct {
+	fn   string
+	args []string
+	atom string
+	sd   *SpecDef
+	bool_ bool
+}
+
+var _ = opaqueInst{}
+
 
 func newTr(g *Global, fn *ssa.Function, key string, fc *FuncContract) *Tr {
 	return &Tr{g: g, fn: fn, key: key, fc: fc, sc: newScript(), initVars: map[string]Value{}, heapSorts: map[string]string{},
 		typeFactDone: map[string]bool{}, oblCount: map[string]int{}, assumptions: map[string]bool{}, cntSyms: map[string]string{}, callCount: map[string]int{},
-		stores: map[string]storeRec{}, freshRefs: map[string]bool{}, symTop: map[string]string{}, heapKind: map[string]string{}, revealed: map[string]bool{}}
+		stores: map[string]storeRec{}, freshRefs: map[string]bool{}, symTop: map[string]string{}, heapKind: map[string]string{}, revealed: map[string]bool{}, subTerms: map[string]string{}, frameTops: []string{"|top@0|"},
+		allocParent: map[string]string{}, opaqueAtoms: map[string][]opaqueInst{}, stableUsed: map[string]bool{}}
 }
 
 type retPoint struct {
